@@ -38,14 +38,14 @@ func checkC09(p *Prog, r *Report) {
 
 type byteset [4]uint64
 
-func (s *byteset) set(b byte)      { s[b>>6] |= 1 << (b & 63) }
-func (s byteset) has(b byte) bool  { return s[b>>6]&(1<<(b&63)) != 0 }
+func (s *byteset) set(b byte)     { s[b>>6] |= 1 << (b & 63) }
+func (s byteset) has(b byte) bool { return s[b>>6]&(1<<(b&63)) != 0 }
 func (s byteset) and(o byteset) byteset {
 	return byteset{s[0] & o[0], s[1] & o[1], s[2] & o[2], s[3] & o[3]}
 }
-func (s byteset) not() byteset   { return byteset{^s[0], ^s[1], ^s[2], ^s[3]} }
-func (s byteset) empty() bool    { return s == byteset{} }
-func (s byteset) full() bool     { return s == byteset{^uint64(0), ^uint64(0), ^uint64(0), ^uint64(0)} }
+func (s byteset) not() byteset          { return byteset{^s[0], ^s[1], ^s[2], ^s[3]} }
+func (s byteset) empty() bool           { return s == byteset{} }
+func (s byteset) full() bool            { return s == byteset{^uint64(0), ^uint64(0), ^uint64(0), ^uint64(0)} }
 func (s byteset) subset(o byteset) bool { return s.and(o) == s }
 func (s byteset) String() string {
 	var parts []string
@@ -131,6 +131,33 @@ func (a dnf) and(b dnf) dnf {
 		}
 	}
 	return out.norm()
+}
+
+// not: complement by De Morgan — the conjunction over the cubes of "some position is outside the cube".
+// ok is false when the intermediate form grows beyond a fixed size (the caller reports "undecided").
+func (a dnf) not() (dnf, bool) {
+	out := dnfTrue()
+	for _, c := range a {
+		var alt dnf
+		var ks []int
+		for k := range c {
+			ks = append(ks, k)
+		}
+		sort.Ints(ks)
+		for _, k := range ks {
+			if n := c[k].not(); !n.empty() {
+				alt = append(alt, cube{k: n})
+			}
+		}
+		if len(out)*len(alt) > 20000 {
+			return nil, false
+		}
+		out = out.and(alt)
+		if len(out) > 4096 {
+			return nil, false
+		}
+	}
+	return out, true
 }
 
 func (a dnf) or(b dnf) dnf { return append(append(dnf{}, a...), b...).norm() }
@@ -423,6 +450,10 @@ func (env *predEnv) eval(e ast.Expr) (dnf, error) {
 		case token.LSS, token.LEQ, token.GTR, token.GEQ:
 			return env.evalLen(x)
 		}
+	case *ast.UnaryExpr:
+		if x.Op == token.NOT {
+			return env.evalNeg(x.X)
+		}
 	case *ast.CallExpr:
 		return env.evalCall(x)
 	case *ast.Ident:
@@ -436,7 +467,92 @@ func (env *predEnv) eval(e ast.Expr) (dnf, error) {
 	return nil, undecidedErr{fmt.Sprintf("construct outside the predicate grammar: %T at %s", e, env.p.posStr(e.Pos()))}
 }
 
+// evalNeg evaluates !e by pushing the negation down the expression (De Morgan on the syntax, flipped comparison
+// operators), so that the complement never has to be taken of a large disjunction.
+func (env *predEnv) evalNeg(e ast.Expr) (dnf, error) {
+	switch x := e.(type) {
+	case *ast.ParenExpr:
+		return env.evalNeg(x.X)
+	case *ast.UnaryExpr:
+		if x.Op == token.NOT {
+			return env.eval(x.X)
+		}
+	case *ast.BinaryExpr:
+		flip := map[token.Token]token.Token{token.EQL: token.NEQ, token.NEQ: token.EQL, token.LSS: token.GEQ, token.GEQ: token.LSS, token.GTR: token.LEQ, token.LEQ: token.GTR}
+		switch x.Op {
+		case token.LAND, token.LOR:
+			a, err := env.evalNeg(x.X)
+			if err != nil {
+				return nil, err
+			}
+			b, err := env.evalNeg(x.Y)
+			if err != nil {
+				return nil, err
+			}
+			if x.Op == token.LAND {
+				return a.or(b), nil
+			}
+			return a.and(b), nil
+		default:
+			if op, ok := flip[x.Op]; ok {
+				c := *x
+				c.Op = op
+				return env.eval(&c)
+			}
+		}
+	}
+	a, err := env.eval(e)
+	if err != nil {
+		return nil, err
+	}
+	if n, ok := a.not(); ok {
+		return n, nil
+	}
+	return nil, undecidedErr{"negation too large at " + env.p.posStr(e.Pos())}
+}
+
 func (env *predEnv) evalCompare(x *ast.BinaryExpr) (dnf, error) {
+	// two bytes compared with each other: win[J] ==/!= win[K]
+	if a, ok := stripParen(x.X).(*ast.IndexExpr); ok {
+		if b, ok := stripParen(x.Y).(*ast.IndexExpr); ok {
+			pos := func(ie *ast.IndexExpr) (int, bool) {
+				w, err := env.window(ie.X)
+				if err != nil {
+					return 0, false
+				}
+				kv, ok := env.constOf(ie.Index)
+				if !ok {
+					return 0, false
+				}
+				k, _ := constant.Int64Val(kv)
+				if w.length >= 0 && int(k) >= w.length {
+					return 0, false
+				}
+				return w.off + int(k), true
+			}
+			pa, oka := pos(a)
+			pb, okb := pos(b)
+			if oka && okb {
+				if pa == pb {
+					if x.Op == token.NEQ {
+						return dnfFalse(), nil
+					}
+					return dnfTrue(), nil
+				}
+				var out dnf
+				for v := 0; v < 256; v++ {
+					var bs byteset
+					bs.set(byte(v))
+					if x.Op == token.NEQ {
+						out = append(out, cube{pa: bs, pb: bs.not()})
+					} else {
+						out = append(out, cube{pa: bs, pb: bs})
+					}
+				}
+				return out, nil
+			}
+		}
+	}
 	// byte test: win[K] ==/!= B
 	for _, pr := range [][2]ast.Expr{{x.X, x.Y}, {x.Y, x.X}} {
 		if ie, ok := stripParen(pr[0]).(*ast.IndexExpr); ok {
@@ -584,27 +700,6 @@ func (env *predEnv) evalCall(ce *ast.CallExpr) (dnf, error) {
 		return nil, undecidedErr{"predicate " + fobj.Name() + " has no body in the module"}
 	}
 	body := fd.Body.List
-	for len(body) > 1 {
-		// bounds-check hints `_ = buf[K]` are no-ops for the predicate's value
-		as, ok := body[0].(*ast.AssignStmt)
-		if !ok || len(as.Lhs) != 1 || len(as.Rhs) != 1 {
-			break
-		}
-		if id, ok := as.Lhs[0].(*ast.Ident); !ok || id.Name != "_" {
-			break
-		}
-		if _, ok := as.Rhs[0].(*ast.IndexExpr); !ok {
-			break
-		}
-		body = body[1:]
-	}
-	if len(body) != 1 {
-		return nil, undecidedErr{"predicate " + fobj.Name() + " is not a single return statement"}
-	}
-	ret, ok := body[0].(*ast.ReturnStmt)
-	if !ok || len(ret.Results) != 1 {
-		return nil, undecidedErr{"predicate " + fobj.Name() + " is not a single return statement"}
-	}
 	ne := &predEnv{pkg: pk, wins: map[types.Object]window{}, strs: map[types.Object]string{}, p: env.p, dep: env.dep + 1}
 	i := 0
 	for _, fld := range fd.Type.Params.List {
@@ -633,7 +728,60 @@ func (env *predEnv) evalCall(ce *ast.CallExpr) (dnf, error) {
 			}
 		}
 	}
-	return ne.eval(ret.Results[0])
+	return ne.evalStmts(body, fobj.Name())
+}
+
+// evalStmts gives the value of a predicate body made of bounds-check hints (`_ = buf[K]`), early returns
+// (`if c { return e }`, optionally with an else branch of the same shape) and a final `return e`:
+// if c {return e1}; rest  ==  (c && e1) || (!c && rest).
+func (env *predEnv) evalStmts(body []ast.Stmt, name string) (dnf, error) {
+	if len(body) == 0 {
+		return nil, undecidedErr{"predicate " + name + " can end without a return statement"}
+	}
+	switch st := body[0].(type) {
+	case *ast.AssignStmt:
+		// bounds-check hints `_ = buf[K]` are no-ops for the predicate's value
+		if len(st.Lhs) == 1 && len(st.Rhs) == 1 {
+			if id, ok := st.Lhs[0].(*ast.Ident); ok && id.Name == "_" {
+				if _, ok := st.Rhs[0].(*ast.IndexExpr); ok {
+					return env.evalStmts(body[1:], name)
+				}
+			}
+		}
+	case *ast.ReturnStmt:
+		if len(st.Results) == 1 {
+			return env.eval(st.Results[0])
+		}
+	case *ast.BlockStmt:
+		return env.evalStmts(append(append([]ast.Stmt{}, st.List...), body[1:]...), name)
+	case *ast.IfStmt:
+		if st.Init != nil {
+			break
+		}
+		c, err := env.eval(st.Cond)
+		if err != nil {
+			return nil, err
+		}
+		// the then-branch must end in a return on its own; what follows the if is the continuation of the else side
+		thenV, err := env.evalStmts(st.Body.List, name)
+		if err != nil {
+			return nil, err
+		}
+		rest := body[1:]
+		if st.Else != nil {
+			rest = append([]ast.Stmt{st.Else}, rest...)
+		}
+		elseV, err := env.evalStmts(rest, name)
+		if err != nil {
+			return nil, err
+		}
+		nc, err := env.evalNeg(st.Cond)
+		if err != nil {
+			return nil, err
+		}
+		return c.and(thenV).or(nc.and(elseV)), nil
+	}
+	return nil, undecidedErr{fmt.Sprintf("predicate %s: statement outside the predicate grammar (%T at %s)", name, body[0], env.p.posStr(body[0].Pos()))}
 }
 
 // declOf finds the FuncDecl of a function object anywhere in the module.
@@ -715,10 +863,10 @@ type sigRule struct {
 }
 
 type sigSpec struct {
-	Window  int                              `json:"window"`
-	Unknown string                           `json:"unknown"`
-	Types   map[string][][]map[string]any    `json:"types"`
-	Wins    [][2]string                      `json:"wins"`
+	Window  int                           `json:"window"`
+	Unknown string                        `json:"unknown"`
+	Types   map[string][][]map[string]any `json:"types"`
+	Wins    [][2]string                   `json:"wins"`
 }
 
 func loadSigSpec(r *Report) (*sigSpec, map[string]dnf) {
